@@ -448,7 +448,7 @@ theorem led_meltQuote (cx : Cx) (qid : Nat) (inv : InvReq) (m : Nat → UInt64) 
   apply led_transfer
   generalize hr : runM (requestMeltQuote cx qid inv m u mpp) s = x
   obtain ⟨s', r⟩ := x
-  rcases requestMeltQuote_cases cx qid inv m u mpp s s' r hr with ⟨e, _, hs⟩ | ⟨hh, q, _, _, hok⟩
+  rcases requestMeltQuote_cases cx qid inv m u mpp s s' r hr with ⟨e, _, hs⟩ | ⟨ii, hh, q, _, _, hok⟩
   · show Led s'.1 s.2.invoices
     rw [hs]; exact h
   · show Led s'.1 s.2.invoices
